@@ -344,8 +344,8 @@ Definition f_absclose (atol a b : float) : bool :=
 Definition zdate (d : Z * Z * Z) : list Z := let '(y, m, k) := d in [y; m; k].
 Definition date_of (l : list Z) : Z * Z * Z := (nth 0 l 0, nth 1 l 0, nth 2 l 0).
 
+(* expect = None: the call raised ValueError *)
 Inductive dcase :=
-(* variant: 0 = repaired kernel, 1 = kernel as pinned *)
 | CAgg (op maxnan : Z) (idx : list Z) (xs : list float) (expect : option (list float))
 | CFlat (maxnan : Z) (idx : list Z) (xs : list float) (expect : option (list float))
 | CDim (y m d : Z)
